@@ -1,10 +1,12 @@
 """C05 - unsubscribe stops delivery, is idempotent, is reflected by is_subscribed (sequential part)."""
 import scen
+import vplib
 import sx
 from common import ops_of
 from scen import C, e, n, op, scn, src, sub
 
 PID = "C05"
+CONC_MODULE = "C05c"
 ORACLE = "c05"
 RULE = ("pipelines of depth 0-3 over cold sources (the subscriber unsubscribes itself from inside its i-th callback, every i) and over "
         "hot subjects of the four kinds (driver unsubscribes at every position of the emit script: before the first item, between any "
@@ -90,3 +92,9 @@ def generate(rng, tier, focus):
         i = rng.randrange(0, 3)
         cases.append((scn(handles=1, script_=[sub(0, p, (i, ["unsub-self"]))] + pushes + tail), {"k": "manual-self-unsub"}))
     return cases
+
+
+def run(tier, seed):
+    import sys
+    import C05c
+    return vplib.run_both(sys.modules[__name__], C05c, tier, seed)
